@@ -103,14 +103,14 @@ def module_names():
 def tree_hash(extra=()):
     """content hash of everything a verdict depends on: the repository sources and data, the checker"""
     h = hashlib.sha256()
-    roots = [os.path.join(REPO, 'stdnum'), os.path.join(REPO, 'online_check'),
-             os.path.join(os.path.dirname(os.path.abspath(__file__))),
-             os.path.join(os.path.dirname(os.path.dirname(os.path.abspath(__file__))), 'contracts')]
+    here = os.path.dirname(os.path.abspath(__file__))
+    roots = [os.path.join(REPO, 'stdnum'), os.path.join(REPO, 'online_check'), here,
+             os.path.join(os.path.dirname(here), 'contracts')]
     for root in roots:
         for dp, dn, fn in sorted(os.walk(root)):
             dn.sort()
-            if '__pycache__' in dp:
-                continue
+            if '__pycache__' in dp or (root == here and dp != here):
+                continue        # property drivers under pyvc/props do not influence the shared sweep
             for f in sorted(fn):
                 if f.endswith(('.py', '.dat', '.wsgi', '.html', '.lean')):
                     p = os.path.join(dp, f)
